@@ -213,7 +213,13 @@ impl<'tcx> Cx<'tcx> {
                 o.set("s", J::s(format!("{}", c.const_)));
                 // named constant / static referenced?
                 if let Const::Unevaluated(uv, _) = c.const_ {
-                    o.set("const_def", J::s(path_of(tcx, uv.def)));
+                    match uv.promoted {
+                        Some(p) => o.set(
+                            "promoted",
+                            J::s(format!("{}::promoted[{}]", path_of(tcx, uv.def), p.as_usize())),
+                        ),
+                        None => o.set("const_def", J::s(path_of(tcx, uv.def))),
+                    }
                 }
                 if let Some(did) = c.check_static_ptr(tcx) {
                     o.set("static_def", J::s(path_of(tcx, did)));
